@@ -117,7 +117,7 @@ class MAUPITIConv2d(nn.Conv2d, MAUPITIModule):
         if not self.skip_requant:
             with torch.no_grad():
                 self._zero_point = (self.add_bias + (self.clip_inf * 2**self.shift) -
-                                    self.clip_inf * self.scale *
+                                    self.in_offset * self.scale *
                                     torch.sum(self.weight, dim=(1, 2, 3)
                                               ).view(1, self.out_channels, 1, 1))
         else:
@@ -138,7 +138,7 @@ class MAUPITIConv2d(nn.Conv2d, MAUPITIModule):
             # (left, right, top, bottom): last axis first
             self.pad = nn.ConstantPad2d((self.padding[1], self.padding[1],
                                          self.padding[0], self.padding[0]),
-                                        self.clip_inf)
+                                        self.in_offset)
 
     def forward(self, input: torch.Tensor) -> torch.Tensor:
         """The forward function of integer conv2d layer.
@@ -187,6 +187,12 @@ class MAUPITIConv2d(nn.Conv2d, MAUPITIModule):
     @property
     def device(self):
         return next(self.parameters()).device
+
+    @property
+    def in_offset(self):
+        # Offset of the (offset-signed) input activations: depends on the
+        # input precision, which may differ from the output one
+        return torch.tensor(-2 ** (self.in_quantizer.precision - 1), device=self.device)
 
     @property
     def clip_inf(self):
